@@ -1342,6 +1342,10 @@ def check(ctx):
             ctx.assume('C18.KEEP-OVERRIDE(C17.RULE-LINE) not decided (C17 '
                        'declines: %s)' % str(e)[:120])
     ctx.borrow('C18.KEEP-OVERRIDE', _rule_line, only=['C17.RULE-LINE'])
+    # the policy generator merges what the enforcer recorded as file rules:
+    # that record is renewed together with the rule store (C10.PAIR)
+    from . import c10 as _c10
+    ctx.borrow_soft('C18.MERGE', _c10.check_pair, only=['C10.PAIR'])
     # the upgrade tool moves an override to the new name because the
     # enforcer lets an old-name override govern the new policy (C11.TABLE)
     from . import c11
